@@ -134,7 +134,8 @@ pub fn drive(tier: Tier) -> i32 {
         match c.output() {
             Ok(o) if o.status.success() => {
                 let bin = target_base().join("verif").join("c18mt");
-                let per_thread = tier.of(2_000u64, 20_000);
+                // quick: 72 000 evaluations in the first run (more than 2^16 evaluations of one shared ruleset)
+                let per_thread = tier.of(4_500u64, 20_000);
                 for (k, threads, jitter) in [(0u64, 16u64, "jitter"), (1, 16, "nojitter"), (2, 48, "jitter"), (3, 3, "nojitter")] {
                     let r = run_bin("native", &bin, &[threads.to_string(), (per_thread * 16 / threads / (1 + k * 3)).max(50).to_string(), (seed + k).to_string(), jitter.into()], &[]);
                     absorb(&mut m, &mut inconclusive, &mut runs, r, false);
